@@ -37,7 +37,7 @@ var catalogs = map[string][]world.ITSpec{
 	"K1": {{Name: "s", CPU: 2, MemGi: 4, Pods: 4, Offers: std(1)}, {Name: "m", CPU: 4, MemGi: 8, Pods: 6, Offers: std(2)}, {Name: "l", CPU: 8, MemGi: 16, Pods: 8, Offers: std(4)}},
 	// K2: m on-demand unavailable in a, s is arm64, l spot only in b
 	"K2": {{Name: "s", CPU: 2, MemGi: 4, Pods: 4, Arch: "arm64", Offers: std(1)},
-		{Name: "m", CPU: 4, MemGi: 8, Pods: 6, Offers: []world.OfSpec{of("a", "spot", 1.2), of("b", "spot", 1.3), {Zone: "a", CT: "on-demand", Price: 2, Available: false}, of("b", "on-demand", 2.1)}},
+		{Name: "m", CPU: 4, MemGi: 8, Pods: 6, Offers: []world.OfSpec{of("a", "spot", 1.2), of("b", "spot", 1.3), {Zone: "a", CT: "on-demand", Price: 0.4, Available: false}, of("b", "on-demand", 2.1)}},
 		{Name: "l", CPU: 8, MemGi: 16, Pods: 8, Offers: []world.OfSpec{of("b", "spot", 2.5), of("a", "on-demand", 4), of("b", "on-demand", 4.1)}}},
 	// K3: reserved offerings (shared reservation id r1 on both types), plus on-demand
 	"K3": {{Name: "m", CPU: 4, MemGi: 8, Pods: 6, Offers: []world.OfSpec{{Zone: "a", CT: "reserved", Price: 0.01, Available: true, RID: "r1", ResCap: 1}, of("a", "on-demand", 2), of("b", "on-demand", 2.1)}},
